@@ -88,6 +88,9 @@ def evaluate(ctx, specs, rng, profiles, want_brute, out, kind):
             continue
         if kind == "spec":
             _check_lengths(lf, spec, out)
+            if spec["kind"] == "codon":
+                _check_indep_codon(ctx, lf, spec, out)
+                _check_omega_structure(lf, spec, out)
         uc = _uniq_cols(ex["cols"])
         brute = []
         if want_brute:
@@ -365,6 +368,182 @@ def _check_expm(lf, spec, out):
                 return
 
 
+
+# --------------------------------------------------------------------------
+# independent rate matrices ("computed independently from the model's published definition")
+# --------------------------------------------------------------------------
+TRANSITIONS = {frozenset("AG"), frozenset("CT")}
+INDEP_Q_MODELS = {"GY94": ("hky", "tuple"), "Y98": ("hky", "tuple"), "MG94HKY": ("hky", "monomer"), "MG94GTR": ("gtr", "monomer")}
+
+
+def _indep_codon_Q(name, gc, motifs, par, pi_word, pi_mono):
+    """Goldman-Yang / Muse-Gaut rate matrix from the papers' definition: only single-nucleotide changes are
+    instantaneous; rate = (kappa for transitions | GTR term of the nucleotide pair) x (omega if the amino acid
+    changes under NCBI table `gc`) x (frequency of the target codon [GY] | of the target nucleotide [MG]);
+    rows sum to zero; calibrated to one expected substitution per unit time"""
+    import numpy
+
+    fam, weight = INDEP_Q_MODELS[name]
+    m = len(motifs)
+    Q = numpy.zeros((m, m))
+    for i, x in enumerate(motifs):
+        for j, y in enumerate(motifs):
+            diff = [k for k in range(3) if x[k] != y[k]]
+            if len(diff) != 1:
+                continue
+            a, b = x[diff[0]], y[diff[0]]
+            if fam == "hky":
+                r = par["kappa"] if frozenset((a, b)) in TRANSITIONS else 1.0
+            else:
+                r = par.get("/".join(sorted((a, b))), 1.0)  # G/T is the reference term
+            if U.translate(gc, x) != U.translate(gc, y):
+                r *= par["omega"]
+            r *= pi_word[j] if weight == "tuple" else pi_mono[b]
+            Q[i, j] = r
+    Q -= numpy.diag(Q.sum(axis=1))
+    Q /= -(pi_word * numpy.diag(Q)).sum()
+    return Q
+
+
+def _lnl_from_P(ctx, ex, Ps):
+    """first-principles lnL (exact pruning in the Lean model) with the given edge matrices"""
+    ex2 = dict(ex, bins=[dict(P=Ps, pi=ex["bins"][0]["pi"])], bprobs=[1.0])
+    (res,) = ctx.driver.batch([U.lean_request(ex2, [])])
+    if "error" in res:
+        raise RuntimeError(res["error"])
+    lhs = [unrat(x) for x in res["lh"]]
+    return sum(k * U.log_fraction(l) for k, l in zip(res["counts"], lhs))
+
+
+def _check_indep_codon(ctx, lf, spec, out):
+    """lnL against P = scipy expm(Q t) with Q built here from the published definition, for the codon models
+    whose definition is reproduced above, under the genetic code the model was asked for"""
+    import numpy
+    from scipy.linalg import expm
+
+    name = spec["model"]
+    if name not in INDEP_Q_MODELS or spec.get("bins", 1) > 1:
+        return
+    gc = spec.get("model_kw", {}).get("gc") or 1
+    ex = U.extract(lf, spec, profiles="oracle")
+    motifs = ex["motifs"]
+    pi_word = numpy.array(ex["bins"][0]["pi"], dtype=float)
+    mp = lf.get_motif_probs()
+    pi_mono = {str(k): float(v) for k, v in mp.to_dict().items()} if INDEP_Q_MODELS[name][1] == "monomer" else None
+    pnames = [p for p in lf.get_param_names() if p not in ("mprobs", "length")]
+    Ps = []
+    for e in ex["edges"]:
+        par = {p: float(lf.get_param_value(p, edge=e)) for p in pnames}
+        Q = _indep_codon_Q(name, gc, motifs, par, pi_word, pi_mono)
+        t = float(lf.get_param_value("length", edge=e))
+        Ps.append(expm(Q * t))
+    want = _lnl_from_P(ctx, ex, Ps)
+    got = float(lf.lnL)
+    out["evaluations"] += 1
+    bump(out, "indep_codon_Q", f"{name}:gc={gc}")
+    if not (abs(got - want) <= 1e-7 * abs(want) + 1e-10):
+        add_failure(out, "spec", "lnL differs from the value computed from an independently built codon rate matrix",
+                    dict(_slim(spec), check="indepQ"), want, got, sig=f"indepQ:{name}:gc={'std' if gc in (1, 11) else 'nonstd'}")
+    else:
+        out["nontrivial"].add((name, gc, spec["seed"], "indepQ"))
+
+
+def _check_omega_structure(lf, spec, out):
+    """every codon model, any motif-prob model: changing omega alone must rescale exactly the entries of Q whose
+    amino acid changes under the REQUESTED genetic code (independent NCBI tables), up to the common calibration factor"""
+    import numpy
+
+    if "omega" not in lf.get_param_names():
+        return
+    gc = spec.get("model_kw", {}).get("gc") or 1
+    motifs = [str(m) for m in lf._motifs]
+    e = U.tree_edges(spec["tree"])[0]
+    saved = [r for r in spec["rules"] if r["par_name"] == "omega"]
+    try:
+        lf.set_param_rule("omega", init=1.0)
+        Q1 = numpy.array(lf.get_rate_matrix_for_edge(e, calibrated=True).array, dtype=float)
+        w = 0.25
+        lf.set_param_rule("omega", init=w)
+        Qw = numpy.array(lf.get_rate_matrix_for_edge(e, calibrated=True).array, dtype=float)
+    finally:
+        U.apply_rules(lf, saved or [dict(par_name="omega", init=1.0)])
+    syn, non = [], []
+    for i, x in enumerate(motifs):
+        for j, y in enumerate(motifs):
+            if i != j and Q1[i, j] > 0:
+                (syn if U.translate(gc, x) == U.translate(gc, y) else non).append((Qw[i, j] / Q1[i, j], x, y))
+    out["evaluations"] += 1
+    bump(out, "omega_structure", f"{spec['model']}:gc={gc}")
+    if not syn or not non:
+        return
+    c = sorted(r for r, _, _ in syn)[len(syn) // 2]
+    bad = [(x, y, "synonymous") for r, x, y in syn if abs(r - c) > 1e-9 * c] + \
+          [(x, y, "replacement") for r, x, y in non if abs(r - c * w) > 1e-9 * c]
+    if bad:
+        add_failure(out, "spec", "omega does not scale exactly the replacement changes of the requested genetic code",
+                    dict(_slim(spec), check="omega", pairs=bad[:6]), f"{len(syn)} synonymous / {len(non)} replacement pairs per NCBI table {gc}",
+                    f"{len(bad)} pairs scaled as the other class, e.g. {bad[0]}",
+                    sig=f"omega-structure:{spec['model']}:gc={'std' if gc in (1, 11) else 'nonstd'}")
+    else:
+        out["nontrivial"].add((spec["model"], gc, "omega-structure"))
+
+
+# adversarial in-bounds settings for the matrix exponential: ties make Q defective or nearly so
+TIE_VALUES = [1.0, 1.0, 3.0, 3.0, 0.5, 2.0, 1e-3, 1e3]
+
+
+def _adversarial_expm(ctx, rng, out, n):
+    """default expm ('either') under tied / equal / extreme in-bounds rate terms: P rows sum to one, P equals scipy
+    expm(Q t) of the model's own Q to 1e-8 and lnL equals the first-principles value computed from that P"""
+    import numpy
+    from scipy.linalg import expm
+
+    kinds = U.model_kinds()
+    nuc = [m for m, k in kinds.items() if k == "nucleotide" and m not in U.DISCRETE]
+    fixed = [("GN", {"A>G": 3.0, "C>T": 3.0, "T>A": 3.0}), ("GN", {}), ("ssGN", {}), ("GTR", {})]
+    for i in range(n):
+        if i < len(fixed):
+            name, forced = fixed[i]
+        else:
+            name, forced = rng.choice(["GN", "GN", "ssGN", "GTR", "TN93", "HKY85"] + nuc), None
+        spec = U.rand_problem(rng, name, ntips=3, ncols=6, bins=1, scoped=False)
+        spec["mprobs"] = spec["mprobs"] or U.rand_mprobs(rng, [str(m) for m in U.get_sm(name).get_alphabet()])
+        try:
+            lf = U.build_lf(spec, None)
+            pnames = [p for p in lf.get_param_names() if p not in ("mprobs", "length")]
+            if forced is not None:
+                rules = [dict(par_name=p, init=forced.get(p, 1.0)) for p in pnames]
+            else:
+                pool = rng.choice([TIE_VALUES, [1.0, 3.0], [2.0], [1e-6, 1.0, 1e6], [0.5, 0.5, 2.0]])
+                rules = [dict(par_name=p, init=rng.choice(pool)) for p in pnames]
+            spec["rules"] = rules
+            U.apply_rules(lf, rules)
+            got = float(lf.lnL)
+            ex = U.extract(lf, spec, profiles="oracle")
+            Ps, worst, rows = [], 0.0, 0.0
+            for e in ex["edges"]:
+                Q = numpy.array(lf.get_rate_matrix_for_edge(e, calibrated=True).array, dtype=float)
+                t = float(lf.get_param_value("length", edge=e))
+                P = numpy.array(lf.get_psub_for_edge(e).array, dtype=float)
+                W = expm(Q * t)
+                Ps.append(W)
+                worst = max(worst, float(numpy.abs(P - W).max()))
+                rows = max(rows, float(numpy.abs(P.sum(axis=1) - 1).max()))
+            want = _lnl_from_P(ctx, ex, Ps)
+        except Exception as e:
+            add_failure(out, "spec", "likelihood function with tied/extreme in-bounds rate terms raised", _slim(spec), "a likelihood",
+                        f"{type(e).__name__}: {e}", sig=f"adversarial-raised:{name}:{type(e).__name__}")
+            continue
+        out["evaluations"] += 1
+        bump(out, "adversarial_expm", name)
+        if worst > 1e-8 or rows > 1e-9 or not (abs(got - want) <= 1e-7 * abs(want) + 1e-10):
+            add_failure(out, "spec", "P / lnL differ from scipy expm(Q t) of the model's own Q under tied or extreme in-bounds rate terms",
+                        dict(_slim(spec), check="adversarial"), dict(lnL=want, max_abs_P_err="<=1e-8", row_sum_err="<=1e-9"),
+                        dict(lnL=got, max_abs_P_err=worst, row_sum_err=rows), sig=f"adversarial-expm:{name}")
+        else:
+            out["nontrivial"].add((name, str(rules), "adversarial"))
+
+
 def spec_check(ctx, budget):
     out = new_outcome(
         "real likelihood functions vs the Lean spec `bruteForce` (sum over all labelings; leaf profiles from the harness's "
@@ -383,8 +562,14 @@ def spec_check(ctx, budget):
     for i in range(25 * budget):
         specs.append(U.rand_problem(rng, nuc[(i + ctx.seed) % len(nuc)], ntips=rng.randint(3, 6), unary=rng.random() < 0.15))
     n_big = max(1, budget // 2)
+    indep = sorted(INDEP_Q_MODELS)
     for i in range(n_big):
-        specs.append(U.rand_problem(rng, codon[(ctx.seed * n_big + i + budget) % len(codon)], ntips=rng.choice([3, 3, 4]), ncols=rng.randint(3, 6)))
+        # one codon model with a reproduced definition and one arbitrary codon model, each under a random NCBI table
+        for j in range(2):
+            specs.append(U.rand_problem(rng, indep[(2 * (ctx.seed * n_big + i + budget) + j) % len(indep)], ntips=rng.choice([3, 3, 4]),
+                                        ncols=rng.randint(4, 7), gc=rng.choice([2, 2, 4, 5, 3, 6, 1]), bins=1))
+        specs.append(U.rand_problem(rng, codon[(ctx.seed * n_big + i + budget) % len(codon)], ntips=rng.choice([3, 3, 4]), ncols=rng.randint(3, 6),
+                                    gc=rng.choice([1, 2, 4, 5, 11])))
         specs.append(U.rand_problem(rng, prot[(ctx.seed * n_big + i + budget) % len(prot)], ntips=rng.choice([3, 4]), ncols=rng.randint(3, 8)))
         specs.append(U.rand_problem(rng, U.DINUC, ntips=rng.choice([3, 4]), ncols=rng.randint(3, 8)))
     evaluate(ctx, specs, rng, "oracle", 4, out, "spec")
@@ -398,6 +583,7 @@ def spec_check(ctx, budget):
         except Exception as e:
             add_failure(out, "spec", "likelihood function construction raised", _slim(spec), "a likelihood function",
                         f"{type(e).__name__}: {e}", sig=f"build-raised:{spec['kind']}:{type(e).__name__}")
+    _adversarial_expm(ctx, rng, out, 6 * budget)
     if budget >= 8:
         for name in [prot[ctx.seed % len(prot)], U.DINUC]:
             spec = _all_columns_problem(rng, name, 2)
@@ -423,13 +609,29 @@ def match_finding(f, k):
 def _recheck(ctx, inp):
     """re-run one recorded problem on the real code; returns a failure dict or None"""
     out = new_outcome()
-    spec = {k: v for k, v in inp.items() if k not in ("column", "check", "edge", "bin")}
+    spec = {k: v for k, v in inp.items() if k not in ("column", "check", "edge", "bin", "pairs")}
     check = inp.get("check", "lh")
     if check == "sum1":
         _check_sum_one(spec, None, out)
     elif check == "expm":
         lf = U.build_lf(spec, None)
         _check_expm(lf, spec, out)
+    elif check == "adversarial":
+        lf = None
+        import numpy
+        from scipy.linalg import expm
+        lf = U.build_lf(dict(spec, rules=[]), None)
+        U.apply_rules(lf, spec["rules"])
+        ex = U.extract(lf, spec, profiles="oracle")
+        Ps = [expm(numpy.array(lf.get_rate_matrix_for_edge(e, calibrated=True).array, dtype=float) * float(lf.get_param_value("length", edge=e))) for e in ex["edges"]]
+        want, got = _lnl_from_P(ctx, ex, Ps), float(lf.lnL)
+        worst = max(float(numpy.abs(numpy.array(lf.get_psub_for_edge(e).array) - W).max()) for e, W in zip(ex["edges"], Ps))
+        if worst > 1e-8 or not (abs(got - want) <= 1e-7 * abs(want) + 1e-10):
+            add_failure(out, "spec", "P / lnL differ from scipy expm(Q t) under tied or extreme in-bounds rate terms", inp, want, got,
+                        sig=f"adversarial-expm:{spec['model']}")
+    elif check in ("indepQ", "omega"):
+        lf = U.build_lf(spec, None)
+        (_check_indep_codon(ctx, lf, spec, out) if check == "indepQ" else _check_omega_structure(lf, spec, out))
     elif check == "length":
         lf = U.build_lf(spec, None)
         _check_lengths(lf, spec, out)
